@@ -98,6 +98,11 @@ func (maps *trackedMaps) trackMap(tm *tMap) error {
 	}
 	switch {
 	case isMapPtr || tmKind == reflect.Map || tm.value.Type() == reflect.TypeOf(&structpb.Struct{}):
+		// a map which is tracked by an enclosing sweep is left to that sweep,
+		// which knows which of its fields were already filtered.
+		if maps.parent != nil && maps.parent.isTracked(tm.value.Pointer()) {
+			return nil
+		}
 		func() {
 			maps.l.Lock()
 			defer maps.l.Unlock()
@@ -282,6 +287,7 @@ func (maps *trackedMaps) processUnfiltered(ctx context.Context, ef *Filter, filt
 						if err != nil {
 							return fmt.Errorf("%s: unable to create new tracked maps for slice: %w", op, err)
 						}
+						newMaps.parent = maps
 						fkind := f.Kind()
 						switch {
 						case fkind == reflect.Struct:
@@ -306,6 +312,7 @@ func (maps *trackedMaps) processUnfiltered(ctx context.Context, ef *Filter, filt
 				if err != nil {
 					return fmt.Errorf("%s: unable to create new tracked maps for slice: %w", op, err)
 				}
+				newMaps.parent = maps
 				f := field
 				if !f.CanSet() {
 					// map values aren't addressable, so the fields of a struct stored
